@@ -732,12 +732,13 @@ struct DefRes {
     blocks: usize,
     sim_ns: i64,
     stalls_fired: usize,
+    logged: bool,
 }
 
-fn one(seed: u64, i: usize, keys: usize, walks: usize) -> DefRes {
+fn one(seed: u64, i: usize, keys: usize, walks: usize, logged: bool) -> DefRes {
     let src = gen_source(seed, i);
     let prelude = gen_prelude(seed, i);
-    let mut res = DefRes { evals: 0, usable: false, fingerprints: BTreeSet::new(), violation: None, panics: 0, phis: 0, phi3: false, scope_judged: false, renamed: false, blocks: 0, sim_ns: 0, stalls_fired: 0 };
+    let mut res = DefRes { evals: 0, usable: false, fingerprints: BTreeSet::new(), violation: None, panics: 0, phis: 0, phi3: false, scope_judged: false, renamed: false, blocks: 0, sim_ns: 0, stalls_fired: 0, logged: false };
     let mut rk = Rng::new(seed).sub_n("C14-keys", i as u64);
     for k in 0..keys {
         let key = rk.bytes16();
@@ -775,7 +776,7 @@ fn one(seed: u64, i: usize, keys: usize, walks: usize) -> DefRes {
                     res.violation = Some((
                         sig,
                         detail,
-                        json!({"kind": "C14", "seed": seed, "index": i, "key_index": k, "hashkey": key.iter().map(|b| format!("{b:02x}")).collect::<String>(), "walk_seed": walk_seed, "walks": walks, "source": src, "prelude": prelude, "stall_permille": stall_permille, "clock_seed": clock_seed}),
+                        json!({"kind": "C14", "seed": seed, "index": i, "key_index": k, "hashkey": key.iter().map(|b| format!("{b:02x}")).collect::<String>(), "walk_seed": walk_seed, "walks": walks, "source": src, "prelude": prelude, "trace_logging": logged, "stall_permille": stall_permille, "clock_seed": clock_seed}),
                     ));
                     break;
                 }
@@ -802,11 +803,39 @@ pub fn run(env: &Env) -> i32 {
                 if i >= n {
                     break;
                 }
-                *slots[i].lock().unwrap() = Some(one(seed, i, keys, walks));
+                *slots[i].lock().unwrap() = Some(one(seed, i, keys, walks, false));
             });
         }
     });
-    let results: Vec<DefRes> = slots.into_iter().map(|m| m.into_inner().unwrap().unwrap()).collect();
+    let mut results: Vec<DefRes> = slots.into_iter().map(|m| m.into_inner().unwrap().unwrap()).collect();
+    // second phase: a fifth of the definitions again with every log record built and formatted
+    // (what `RUST_LOG=trace` does): logging must not change the form that comes back
+    {
+        crate::libtier::set_log_level(true);
+        let subset: Vec<usize> = (0..n).filter(|i| i % 5 == 2).collect();
+        let next = AtomicUsize::new(0);
+        let slots: Vec<Mutex<Option<DefRes>>> = (0..subset.len()).map(|_| Mutex::new(None)).collect();
+        std::thread::scope(|s| {
+            for _ in 0..env.workers {
+                s.spawn(|| loop {
+                    let j = next.fetch_add(1, Ordering::SeqCst);
+                    if j >= subset.len() {
+                        break;
+                    }
+                    *slots[j].lock().unwrap() = Some(one(seed, subset[j], keys.min(8), walks, true));
+                });
+            }
+        });
+        crate::libtier::set_log_level(false);
+        for m in slots {
+            let mut r = m.into_inner().unwrap().unwrap();
+            if let Some((sig, detail, replay)) = r.violation.take() {
+                r.violation = Some((format!("with-trace-logging:{sig}"), detail, replay));
+            }
+            r.logged = true;
+            results.push(r);
+        }
+    }
     let mut seen = BTreeSet::new();
     let mut violations = Vec::new();
     for r in &results {
@@ -830,7 +859,9 @@ pub fn run(env: &Env) -> i32 {
         let walk_seed = v.replay["walk_seed"].as_u64().unwrap_or(0);
         let stall_pm = v.replay["stall_permille"].as_u64().unwrap_or(0) as u32;
         let cseed = v.replay["clock_seed"].as_u64().unwrap_or(1);
-        let sig = v.signature.clone();
+        let logged = v.replay["trace_logging"].as_bool().unwrap_or(false);
+        crate::libtier::set_log_level(logged);
+        let sig = v.signature.trim_start_matches("with-trace-logging:").to_string();
         let prelude = v.replay["prelude"].as_str().unwrap_or("").to_string();
         let lines: Vec<String> = src.split_inclusive('\n').map(|s| s.to_string()).collect();
         let mut budget = 400usize;
@@ -852,9 +883,10 @@ pub fn run(env: &Env) -> i32 {
         let s2 = small.clone();
         let pre = prelude.clone();
         let (out, _) = run_in_sim(&plan, move || evaluate(&pre, &s2, walk_seed, walks));
-        if matches!(out, SimResult::Ok(e) if e.verdict.as_ref().map(|(x, _)| *x == v.signature).unwrap_or(false)) {
+        if matches!(out, SimResult::Ok(e) if e.verdict.as_ref().map(|(x, _)| *x == sig).unwrap_or(false)) {
             v.replay["source"] = json!(small);
         }
+        crate::libtier::set_log_level(false);
     }
     let wall = t0.elapsed().as_secs_f64();
     let evals: usize = results.iter().map(|r| r.evals).sum();
@@ -886,6 +918,7 @@ pub fn run(env: &Env) -> i32 {
             ("conversion on a stalling clock", results.iter().map(|r| r.stalls_fired).sum::<usize>()),
             ("definition whose block count is a multiple of 64", results.iter().filter(|r| r.usable && r.blocks > 0 && r.blocks % 64 == 0).count()),
             ("definition with 100 or more blocks", results.iter().filter(|r| r.usable && r.blocks >= 100).count()),
+            ("conversion with every log record built and formatted", results.iter().filter(|r| r.logged).map(|r| r.evals).sum::<usize>()),
             ("source-scope audit judged", results.iter().filter(|r| r.scope_judged).count()),
             ("source-scope audit judged a definition with a renamed declaration", results.iter().filter(|r| r.renamed).count()),
         ],
@@ -922,6 +955,7 @@ pub fn replay(_env: &Env, v: &Value) -> i32 {
     println!("{src}");
     let mut plan = SimPlan::quiet(key, v["clock_seed"].as_u64().unwrap_or(1));
     plan.stall_permille = v["stall_permille"].as_u64().unwrap_or(0) as u32;
+    crate::libtier::set_log_level(v["trace_logging"].as_bool().unwrap_or(false));
     let prelude = v["prelude"].as_str().unwrap_or("").to_string();
     if !prelude.is_empty() {
         println!("converted first on the same thread:\n{prelude}\njudged definition:");
